@@ -2,10 +2,12 @@
 """Regenerates /verif/MANIFEST.json from bin/checks_config.py (single source of truth)."""
 import json, os, sys
 sys.path.insert(0, os.path.dirname(os.path.abspath(__file__)))
-from checks_config import CHECKS, NOT_APPLICABLE, HOOK_COMMITS
+from checks_config import CHECKS, NOT_APPLICABLE, HOOK_COMMITS, ACCEPTED
 VERIF = os.path.dirname(os.path.dirname(os.path.abspath(__file__)))
 checks = []
 for pid in sorted(CHECKS):
+    if pid not in ACCEPTED:
+        continue
     c = CHECKS[pid]
     checks.append({
         "property_id": pid,
@@ -24,7 +26,7 @@ m = {
     "hooks": {"guard": "verif", "enable": "go test -c -tags verif (the driver bin/check always builds with the tag; harness sources are injected with -overlay, /repo is never written)",
               "baseline_off_cmd": "bin/baseline", "source_commits": HOOK_COMMITS, "add_only": True},
     "engines": [
-        {"name": "pbt-go", "path": "/verif/bin/check", "serves_properties": sorted(CHECKS),
+        {"name": "pbt-go", "path": "/verif/bin/check", "serves_properties": sorted(p for p in CHECKS if p in ACCEPTED),
          "kind_free_text": "property-based testing with pgregory.net/rapid v1.3.0 (stateful histories as pure-data op lists, shrinking, JSON replay files) plus native go fuzzing in thorough tiers; harness test files are overlaid into kektordb packages at build time"},
     ],
     "checks": checks,
